@@ -182,8 +182,8 @@ def checkRotoType (tb : Tables) (ti : TypeInfo) : RustTy → RotoTy → Res
       (if t == RotoTy.unit then .ok else .err)
     else
       match lookupFirst tb.leafNames tid with
-      | none => .panic
       | some n => if RotoTy.named n [] == t then .ok else .err
+      | none => .panic
   | .val tid, t0 =>
     match defaulted tb (ti.resolve t0) with
     | .name n _ =>
@@ -315,5 +315,91 @@ def filtermapSignature (verdictName : Ident) (params : List RotoTy) (a r : Optio
 /-- the fixed signature of `test name { … }` (`typechecker/function.rs`) -/
 def testSignature (verdictName : Ident) : Signature :=
   ⟨[], .named verdictName [.unit, .unit]⟩
+
+
+/-! ## Specification: the documented Roto → Rust mapping
+
+  (doc/ "Using Roto from Rust": primitives map to the Rust type of the same
+  name, `String` to `RotoString`, `()` to `()`, `Option[T]`/`T?` to
+  `Option<T>`, `Result[T, E]` to `Result<T, E>`, `Verdict[A, R]` to
+  `Verdict<A, R>`, `List[T]` to `List<T>`, a registered type to the `Val<T>` it
+  was registered as; an integer/float literal type that was never constrained
+  defaults to `i32`/`f64`.) -/
+
+/-- (Roto name, Rust type name) of the primitive types -/
+def docLeaves : List (Ident × Ident) := [
+  (id% "bool", id% "bool"), (id% "char", id% "char"),
+  (id% "u8", id% "u8"), (id% "u16", id% "u16"), (id% "u32", id% "u32"), (id% "u64", id% "u64"),
+  (id% "i8", id% "i8"), (id% "i16", id% "i16"), (id% "i32", id% "i32"), (id% "i64", id% "i64"),
+  (id% "f32", id% "f32"), (id% "f64", id% "f64"),
+  (id% "Asn", id% "Asn"), (id% "IpAddr", id% "IpAddr"), (id% "Prefix", id% "Prefix"),
+  (id% "String", id% "RotoString")]
+
+def docLeaf (i : Ident) : Option Ident := (docLeaves.find? (·.1 == i)).map (·.2)
+
+def nOption : ResolvedName := ⟨.GLOBAL, id% "Option"⟩
+def nResult : ResolvedName := ⟨.GLOBAL, id% "Result"⟩
+def nVerdict : ResolvedName := ⟨.GLOBAL, id% "Verdict"⟩
+def nList : ResolvedName := ⟨.GLOBAL, id% "List"⟩
+def rustUnit : RustTy := .leaf (.prim (id% "()"))
+
+/-- The documented mapping. `none`: the Roto type has no Rust counterpart. -/
+def mapping (ti : TypeInfo) : RotoTy → Option RustTy
+  | .unit => some rustUnit
+  | .intVar => some (.leaf (.prim (id% "i32")))
+  | .floatVar => some (.leaf (.prim (id% "f64")))
+  | .name n [] =>
+    match n.scope, docLeaf n.ident with
+    | .GLOBAL, some rust => some (.leaf (.prim rust))
+    | _, _ =>
+      match ti.resolve_type_name n with
+      | .runtime _ id => some (.val id)
+      | _ => none
+  | .name n [a] =>
+    if n = nOption then (mapping ti a).map .option
+    else if n = nList then (mapping ti a).map .list
+    else match ti.resolve_type_name n with
+      | .runtime _ id => some (.val id)
+      | _ => none
+  | .name n [a, b] =>
+    if n = nResult then
+      match mapping ti a, mapping ti b with
+      | some x, some y => some (.result x y)
+      | _, _ => none
+    else if n = nVerdict then
+      match mapping ti a, mapping ti b with
+      | some x, some y => some (.verdict x y)
+      | _, _ => none
+    else match ti.resolve_type_name n with
+      | .runtime _ id => some (.val id)
+      | _ => none
+  | .name n _ =>
+    match ti.resolve_type_name n with
+    | .runtime _ id => some (.val id)
+    | _ => none
+  | _ => none
+
+/-- position-wise relation between two lists of equal length -/
+inductive Forall2 {α β} (R : α → β → Prop) : List α → List β → Prop
+  | nil : Forall2 R [] []
+  | cons {a b as bs} : R a b → Forall2 R as bs → Forall2 R (a :: as) (b :: bs)
+
+theorem Forall2.length_eq {α β} {R : α → β → Prop} {as : List α} {bs : List β}
+    (h : Forall2 R as bs) : as.length = bs.length := by
+  induction h with
+  | nil => rfl
+  | cons _ _ ih => simp [ih]
+
+theorem forall2_cons {α β} {R : α → β → Prop} {a : α} {b : β} {as : List α} {bs : List β} :
+    Forall2 R (a :: as) (b :: bs) ↔ R a b ∧ Forall2 R as bs :=
+  ⟨fun h => by cases h; exact ⟨‹_›, ‹_›⟩, fun ⟨h1, h2⟩ => .cons h1 h2⟩
+
+/-- Names the language reserves in the global scope are not host-registered
+    types (registration refuses them; see C18). -/
+def reserved : List Ident :=
+  docLeaves.map (·.1) ++ [id% "Option", id% "Result", id% "Verdict", id% "List"]
+
+def TypeInfo.WF (ti : TypeInfo) : Prop :=
+  ∀ i ∈ reserved, ∀ n id, ti.resolve_type_name ⟨.GLOBAL, i⟩ ≠ .runtime n id
 
 end RotoV.Gate
